@@ -8,8 +8,12 @@ from collections import Counter
 import asyncstdlib as A
 
 from ..loop import CTX, Driver, Suspend, rr_strategy, drive
-from ..probes import VLock, PLANNED, PLANNED_NAMES, Planned
+from ..probes import VLock, PLANNED, PLANNED_NAMES, Planned, PlannedAbort, PLANNED_ANY
 from ..sched import explore
+
+# (what user code fails with: also a BaseException that is no Exception - a failure like any other)
+PLANNED = dict(PLANNED, Abort=PlannedAbort)
+PLANNED_NAMES = list(PLANNED_NAMES) + ["Abort", "Abort"]
 
 ID = "C12"
 LEVEL = "exploration"
@@ -35,6 +39,7 @@ RULE += (' Also: frozen hosts (__setattr__ raises).')
 RULE += (' Also: probe locks offer locked().')
 RULE += (" Also: deletion by replacing the instance's __dict__.")
 RULE += (' Also: a subclass overriding the cached property and awaiting super().p.')
+RULE += (' Also: getters failing with a BaseException that is no Exception.')
 ASSUMPTIONS = ["awaiting a handle taken while a value was cached returns that value (unspecified after del; accepted)",
                "the getter's own suspensions are the only scheduling points besides lock waits"]
 EXHAUSTIVE_SUBSPACES = 'all operation sequences of length <= 5 (thorough: 6) over 7 operations; DFS-complete schedule sets for the scenarios counted in scenarios_explored_exhaustively'
@@ -140,7 +145,7 @@ def run_seq(case, stats):
         will_fail = state["fail"]
         try:
             res = ("ok", drive(_aw(obj)))
-        except Planned:
+        except PLANNED_ANY:
             res = ("failed",)
         except BaseException as exc:  # noqa: BLE001
             res = ("raise", type(exc).__name__, str(exc)[:60])
@@ -212,7 +217,7 @@ def run_seq(case, stats):
             runs_before, will_fail = state["runs"], state["fail"]
             try:
                 res = ("ok", drive(_aw(obj)))
-            except Planned:
+            except PLANNED_ANY:
                 res = ("failed",)
             except BaseException as exc:  # noqa: BLE001
                 res = ("raise", type(exc).__name__, str(exc)[:60])
@@ -325,7 +330,7 @@ def execute(case, choose, cancel_at=None):
             t0 = tick()
             try:
                 v = await (stored if how == "stored" else inst.p)
-            except Planned:
+            except PLANNED_ANY:
                 awaits.append((t, t0, tick(), ("failed",)))
                 continue
             awaits.append((t, t0, tick(), ("ok", v)))
